@@ -32,9 +32,9 @@ REAL = ['glue.core.data_collection', 'glue.core.subset_group', 'glue.core.data',
 STUB = ['GC schedule', 'uuid and identity-hash streams']
 ASSUMPTIONS = ['oracle evaluated only when no delay window is open', 'sampling of histories up to the stated length, not proof']
 PROBES = ['reappend_with_groups', 'undo_remove_data', 'restart_with_groups', 'remove_in_delay_window', 'rejected_call_with_groups',
-          'merge_with_groups', 'group_removed_then_data_added']
+          'merge_with_groups', 'group_removed_then_data_added', 'extend_with_repeated_dataset']
 
-WEIGHTS = {'new': 4, 'append': 6, 'remove': 4, 'clear': 0.5, 'merge': 1, 'setitem': 1, 'extend_junk': 0.7, 'append_junk': 0.3,
+WEIGHTS = {'new': 4, 'append': 6, 'remove': 4, 'clear': 0.5, 'merge': 1, 'setitem': 1, 'extend_junk': 0.7, 'append_junk': 0.3, 'extend_list': 1.5,
            'new_group': 4, 'remove_group': 2, 'set_state': 2, 'set_label': 1, 'set_style': 1, 'set_edit': 1, 'set_mode': 0.5,
            'do_add': 2, 'do_remove': 2, 'do_apply': 3, 'do_roi': 1, 'undo': 3, 'redo': 2,
            'delay_open': 1.5, 'delay_close': 2, 'collect': 0.5, 'restart': 0.7}
